@@ -62,7 +62,8 @@ def generate(seed, tier, idx=0):
     prior = rng.choice(PRIORS)
     case = {"program": prog, "strategy": 3, "stats": stats, "prior": prior,
             "stream_seeds": [rng.randrange(1, 10 ** 6), rng.randrange(1, 10 ** 6)],
-            "probe": rng.random() < 0.3, "sched": {"kind": "S0"}}
+            "probe": rng.random() < 0.3, "sched": {"kind": "S0"},
+            "sized_model": rng.random() < 0.1}
     eids = program.event_ids(prog)
     if prior == "fault":
         al = prog["events"][rng.choice(eids)]
@@ -139,7 +140,9 @@ def generate(seed, tier, idx=0):
             rep2[2] = prog["rep"][2]
     # sometimes another model object takes a turn on the same simulator first
     # (paired comparison of two model variants: A, B, A)
-    if rng.random() < 0.25:
+    if rng.random() < 0.25 and not prog.get("initial"):
+        # (an initial method is bound to one model object; not combined with a
+        # second model object on the same simulator)
         devscommon.ref_apply(ref, ["initialize_b"])
         cmds.extend([["initialize_b"], ["settle"]])
         for _ in range(rng.choice([0, 1, 1, 2])):
@@ -152,6 +155,12 @@ def generate(seed, tier, idx=0):
     case["reinit_at"] = len([c for c in cmds if c[0] not in HARNESS_ACTIONS])
     devscommon.ref_apply(ref, init2)
     tail = [init2, ["settle"]]
+    if rng.random() < 0.35:
+        # the new replication is (partly) driven by step()
+        for _ in range(rng.randint(1, 4)):
+            if ref.can_start() and ref.run_state != "ENDED":
+                devscommon.ref_apply(ref, ["step"])
+                tail += [["step"], ["settle"]]
     guard = 0
     while ref.run_state != "ENDED" and guard < 8 and ref.can_start():
         ref.run(ref.end, True)
